@@ -245,57 +245,48 @@ def signal_sets(run, model, names, rule='HSM-SIGSET'):
 
 # ---------------------------------------------------------------------------------------------- cursor invariant I1
 
+def cursor_restored_on_failure(run, model, names, rule='HSM-CURSOR.I1'):
+    """queries that can fail (assert / raise after the walk moved the cursor) restore the cursor before they fail"""
+    hep = processor(model)
+    for nm in names:
+        f = hep.methods.get(nm)
+        g = cfg_of(f)
+        selfn = f.params[0]
+        hc = [n for n, c in handler_calls(g, f)]
+        restores = [n for n in g.nodes if n.kind == 'stmt' and isinstance(n.ast, ast.Assign) and any(dotted(t) == selfn + '.temp.fun' for t in n.ast.targets)
+                    and dotted(n.ast.value) == selfn + '.state.fun']
+        fails = [n for n in g.nodes if n.kind == 'stmt' and isinstance(n.ast, (ast.Assert, ast.Raise)) and any(g.exists_path(h, n) for h in hc)]
+        for n in fails:
+            # on every path from a handler call to the failing statement a restore intervenes
+            ok = all(not g.exists_path(h, n, avoiding=restores) for h in hc if g.exists_path(h, n))
+            run.inst(rule, f, '%s restores the cursor before it can fail at `%s`' % (nm, norm(n.ast)), ok,
+                     '' if ok else ('%s can raise at `%s` after its walk moved the cursor and before the cursor is put back: a failed query leaves temp.fun on an outer state, '
+                                    'the next is_in() answers from there and the next dispatch offers its event to the wrong state' % (nm, norm(n.ast))), node=n.ast, obligation=True)
+
+
 def cursor_invariant(run, model, names, rule='HSM-CURSOR.I1'):
-    """at every normal exit temp.fun == state.fun: the last writes of both (after every handler call) assign the same value,
-    or `temp.fun = state.fun` post-dominates every handler call"""
+    """at every normal exit temp.fun == state.fun: decided per exit by value numbering of the cursor, the state and the locals
+    (a handler call gives the cursor a fresh value; `temp.fun = state.fun`, or both assigned the same local, makes them equal again)"""
     hep = processor(model)
     for nm in names:
         f = hep.methods.get(nm)
         if f is None:
             raise AnalysisError('HsmEventProcessor.%s not found' % nm)
         g = cfg_of(f)
-        selfn = f.params[0]
-        hc = [n for n, c in handler_calls(g, f)]
-        inits = [n for n in g.nodes if n.kind not in ('entry', 'exit', 'xexit', 'def') and
-                 any(isinstance(c.func, ast.Attribute) and c.func.attr in ('init', 'trans_') and dotted(c.func.value) == selfn for c in n.calls())]
-        hc = hc + inits
-
-        def writes(attr):
-            out = []
-            for n in g.nodes:
-                if n.kind == 'stmt' and isinstance(n.ast, ast.Assign):
-                    for tg in n.ast.targets:
-                        tgts = tg.elts if isinstance(tg, ast.Tuple) else [tg]
-                        vals = n.ast.value.elts if isinstance(tg, ast.Tuple) and isinstance(n.ast.value, ast.Tuple) and len(n.ast.value.elts) == len(tgts) else [n.ast.value] * len(tgts)
-                        for t_, v_ in zip(tgts, vals):
-                            if dotted(t_) == selfn + '.' + attr:
-                                out.append((n, v_))
-            return out
-        tw, sw = writes('temp.fun'), writes('state.fun')
-        # final writes: post-dominate the entry and are not followed by a handler call
-        def final(ws):
-            return [(n, v) for n, v in ws if g.postdominates(n, g.entry) and not any(g.exists_path(n, h) for h in hc)]
-        ft, fs = final(tw), final(sw)
-        ok = False
-        why = ''
-        if ft:
-            tn, tv = ft[-1]
-            if dotted(tv) == selfn + '.state.fun':
-                # restore from the state: no later write of state.fun with a different value
-                later = [n for n, v in sw if g.exists_path(tn, n)]
-                ok = not later
-                why = 'state.fun is written after temp.fun was restored from it'
-            elif fs:
-                sn, sv = fs[-1]
-                ok = norm(tv) == norm(sv)
-                why = 'the last write of temp.fun assigns %s, the last write of state.fun assigns %s' % (norm(tv), norm(sv))
-            else:
-                why = 'state.fun is not written on every path'
-        else:
-            why = 'no write of temp.fun post-dominates the handler calls of %s' % nm
+        IN, OUT, s0 = cursor_state_values(f, g)
+        exits = [p for p, lab in g.pred[g.exit]]
+        bad = []
+        for p in exits:
+            st = OUT.get(p)
+            if st is None:
+                continue
+            if st.get('@temp') != st.get('@state'):
+                bad.append(p)
+        ok = not bad and bool(exits)
         run.inst(rule, f, '%s leaves temp.fun == state.fun' % nm, ok,
-                 '' if ok else ('%s can return with the cursor (temp.fun) different from the state (state.fun): %s. The next dispatch starts its search at the cursor, '
-                                'is_in()/child_state() walk from it, and the exit walk of a transition assumes both agree' % (nm, why)), obligation=True)
+                 '' if ok else ('%s can return (after `%s`) with the cursor (temp.fun) not provably equal to the state (state.fun). The next dispatch starts its search at the cursor, '
+                                'is_in()/child_state() walk from it, and the exit walk of a transition assumes both agree' % (nm, bad[0].text() if bad else '?')),
+                 node=bad[0].ast if bad and hasattr(bad[0].ast, 'lineno') else None, obligation=True)
 
 
 # ---------------------------------------------------------------------------------------------- parent reads (typestate)
@@ -486,30 +477,16 @@ def outcome_rules(run, model, rule='HSM-OUTCOME'):
     for n in tcalls:
         ok = guarded_by_edge(g, n, tt, 'true')
         run.inst(rule + '.no-action', f, 'transition machinery only on the transition outcome', ok, 'trans_ is called on a non-transition outcome', node=n.ast, obligation=True)
-    # the state stored at the end is the entry state unless the TRAN branch changed it
-    stores = [n for n in g.nodes if n.kind == 'stmt' and isinstance(n.ast, ast.Assign) and any(dotted(t) == selfn + '.state.fun' for t in n.ast.targets)]
-    finals = [n for n in stores if g.postdominates(n, g.entry)]
-    ok = len(finals) >= 1 and isinstance(finals[-1].ast.value, ast.Name)
-    if ok:
-        tv = finals[-1].ast.value.id
-        defs_nodes = [n for n in g.nodes if n.kind == 'stmt' and isinstance(n.ast, ast.Assign) and
-                      any(isinstance(x, ast.Name) and x.id == tv and isinstance(x.ctx, ast.Store) for tg in n.ast.targets for x in ast.walk(tg))]
-        init_defs = [n for n in defs_nodes if not guarded_by_edge(g, n, tt, 'true')]
-        # outside the TRAN branch the variable is only ever given None or the state at entry
-        vals = []
-        for n in init_defs:
-            tg = n.ast.targets[0]
-            if isinstance(tg, ast.Tuple) and isinstance(n.ast.value, ast.Tuple):
-                for a, b in zip(tg.elts, n.ast.value.elts):
-                    if isinstance(a, ast.Name) and a.id == tv:
-                        vals.append(b)
-            else:
-                vals.append(n.ast.value)
-        ok = bool(vals) and all(is_none(v) or dotted(v) == selfn + '.state.fun' for v in vals) and any(dotted(v) == selfn + '.state.fun' for v in vals)
-        others = [n for n in stores if n not in finals and not guarded_by_edge(g, n, tt, 'true')]
-        ok = ok and not others
+    # on every exit that was not reached through the TRAN branch the state is still the state at entry
+    def not_tran(a, b, lab):
+        return not (a is tt and lab == 'true')
+    IN, OUT, s0 = cursor_state_values(f, g, edge_ok=not_tran)
+    exits = [p for p, lab in g.pred[g.exit] if p in OUT]
+    badx = [p for p in exits if OUT[p].get('@state') != s0]
+    ok = bool(exits) and not badx
     run.inst(rule + '.no-action', f, 'on a non-transition outcome the stored state is the state at entry', ok,
-             '' if ok else 'on a handled/ignored outcome state.fun can receive something other than the state the chart was in when the event arrived', obligation=True)
+             '' if ok else 'on a handled/ignored outcome state.fun can receive something other than the state the chart was in when the event arrived (exit after `%s`)'
+             % (badx[0].text() if badx else '?'), obligation=True)
     # (c) top
     top = processor(model).methods.get('top')
     if top is None:
@@ -586,6 +563,9 @@ def query_rules(run, model, rule='HSM-QUERY'):
         if len(match) != 1:
             raise AnalysisError('%s: the match test (cursor vs argument) was not found' % nm)
         mt = match[0]
+        if compare_parts(mt.ast)[1] not in (ast.Eq, ast.Is) or mt is h:
+            raise AnalysisError('%s: the walk is not of the shape `while True: if cursor == argument: ... else: step` (match test `%s`); '
+                                'the shape-specific query rules do not apply' % (nm, norm(mt.ast)))
         ok = compare_parts(mt.ast)[1] is ast.Eq
         run.inst(rule + '.match', f, 'the cursor is compared with the argument by ==', ok,
                  '' if ok else 'handlers are compared by identity: bound methods such as chart.top are equal but never identical, the query never matches them', node=mt.ast, obligation=True)
@@ -819,3 +799,95 @@ def progress_rules(run, model, rule='HSM-PROGRESS'):
     both = all(w[2] for w in ws)
     run.inst(rule + '.sibling', 'hsm.HsmEventProcessor', 'start_at and dispatch guard their initial-transition walks alike', both,
              '' if both else 'one of the two initial-transition walks (start_at / dispatch) detects an impossible target and the other does not', obligation=True)
+
+
+# ---------------------------------------------------------------------------------------------- value numbering of cursor / state
+
+def cursor_state_values(f, g, assume_equal_at_entry=True, edge_ok=None):
+    """forward must-analysis: symbolic value of temp.fun, state.fun and of every local at each CFG node *exit*.
+    A handler call (or a call of init/trans_) gives the cursor a fresh value; joins of different values give a phi symbol."""
+    selfn = f.params[0]
+    hc = {n for n, c in handler_calls(g, f)}
+    for n in g.nodes:
+        if n.kind in ('entry', 'exit', 'xexit', 'def'):
+            continue
+        if any(isinstance(c.func, ast.Attribute) and c.func.attr in ('init', 'trans_') and dotted(c.func.value) == selfn for c in n.calls()):
+            hc.add(n)
+    s0 = ('entry', 'state')
+    init = {'@temp': s0 if assume_equal_at_entry else ('entry', 'temp'), '@state': s0}
+    OUT = {}
+    IN = {g.entry: dict(init)}
+    work = [g.entry]
+    fresh = [0]
+
+    def sym_of(expr, st, node, slot):
+        d = dotted(expr)
+        if d == selfn + '.temp.fun':
+            return st.get('@temp', ('unk', node.id, slot))
+        if d == selfn + '.state.fun':
+            return st.get('@state', ('unk', node.id, slot))
+        if isinstance(expr, ast.Name):
+            return st.get(expr.id, ('var0', expr.id))
+        if isinstance(expr, ast.Constant):
+            return ('const', repr(expr.value))
+        return ('expr', node.id, slot)
+
+    def transfer(n, st):
+        st = dict(st)
+        if n.kind == 'stmt' and isinstance(n.ast, ast.Assign):
+            for tg in n.ast.targets:
+                tgts = tg.elts if isinstance(tg, ast.Tuple) else [tg]
+                vals = n.ast.value.elts if isinstance(tg, ast.Tuple) and isinstance(n.ast.value, ast.Tuple) and len(n.ast.value.elts) == len(tgts) else [n.ast.value] * len(tgts)
+                pre = dict(st)
+                if n in hc:
+                    pre['@temp'] = ('call', n.id)
+                for i, (t_, v_) in enumerate(zip(tgts, vals)):
+                    sv = sym_of(v_, pre, n, i) if not (isinstance(v_, ast.Call)) else ('callres', n.id, i)
+                    d = dotted(t_)
+                    if d == selfn + '.temp.fun':
+                        st['@temp'] = sv
+                    elif d == selfn + '.state.fun':
+                        st['@state'] = sv
+                    elif isinstance(t_, ast.Name):
+                        st[t_.id] = sv
+                if n in hc and not any(dotted(t_) == selfn + '.temp.fun' for t_ in tgts):
+                    st['@temp'] = ('call', n.id)
+            return st
+        if n in hc:
+            st['@temp'] = ('call', n.id)
+        if n.kind == 'stmt' and isinstance(n.ast, ast.AugAssign) and isinstance(n.ast.target, ast.Name):
+            st[n.ast.target.id] = ('aug', n.id)
+        if n.kind == 'for' and isinstance(n.stmt.target, ast.Name):
+            st[n.stmt.target.id] = ('iter', n.id)
+        return st
+    it = 0
+    while work:
+        it += 1
+        if it > 20000:
+            raise AnalysisError('value numbering does not stabilise in %s' % f.qualname)
+        n = work.pop()
+        out = transfer(n, IN[n])
+        if OUT.get(n) == out:
+            continue
+        OUT[n] = out
+        for m, lab in g.succ[n]:
+            if edge_ok is not None and not edge_ok(n, m, lab):
+                continue
+            # IN[m] = join of the current OUT of every predecessor that has been reached
+            preds = [p for p, l2 in g.pred[m] if p in OUT and (edge_ok is None or edge_ok(p, m, l2))]
+            new = {}
+            keys = set()
+            for p in preds:
+                keys |= set(OUT[p])
+            for k in keys:
+                vals = {OUT[p].get(k) for p in preds}
+                if IN.get(m, {}).get(k) == ('phi', m.id, k):
+                    new[k] = ('phi', m.id, k)          # monotone: once merged, stays merged
+                elif len(vals) == 1 and None not in vals:
+                    new[k] = next(iter(vals))
+                else:
+                    new[k] = ('phi', m.id, k)
+            if IN.get(m) != new:
+                IN[m] = new
+                work.append(m)
+    return IN, OUT, s0
